@@ -240,3 +240,38 @@ Proof.
       apply geq_sel_sym. split; assumption.
   - eexists. eexists. eexists. split; [reflexivity|]. split; [reflexivity|]. split; reflexivity.
 Qed.
+
+(** * C01_rsmi_pipeline_explicit: with its_to_rsmi(explicit_hydrogen=True) nothing is folded, so the round trip relative
+    to R1 holds for every balanced reaction, explicit hydrogen atoms included *)
+Theorem rsmi_pipeline_explicit (str : Type) (rd_read : str -> option rmol) (rd_write : wmol -> option str) :
+  R1 str rd_read rd_write ->
+  forall r p mr mp, rd_read r = Some mr -> rd_read p = Some mp -> rmol_ok mr -> rmol_ok mp ->
+  let G := graph_of mr in let H := graph_of mp in
+  wf G -> wf H -> same_nodes G H -> orders_pos G -> orders_pos H ->
+  forall J r' p', rsmi_to_its_s rd_read r p = Some J -> its_to_rsmi_s_opt rd_write true J = Some (r', p') ->
+  J = its_construct G H /\
+  exists mr' mp', rd_read r' = Some mr' /\ rd_read p' = Some mp' /\ rmol_ok mr' /\ rmol_ok mp' /\
+                  geq_sel (graph_of mr') G /\ geq_sel (graph_of mp') H.
+Proof.
+  intros HR r p mr mp Rr Rp [Nr Sr] [Np Sp] G H WG WH S PG PH J r' p' E1 E2.
+  unfold rsmi_to_its_s in E1. rewrite Rr, Rp in E1. unfold rsmi_to_its_m, rsmi_to_graph_m in E1.
+  rewrite (mol_to_graph_closed mr Nr Sr), (mol_to_graph_closed mp Np Sp) in E1.
+  fold (graph_of mr) in E1. fold (graph_of mp) in E1. fold G in E1. fold H in E1. inversion E1; subst J. clear E1.
+  split; [reflexivity|].
+  unfold its_to_rsmi_s_opt, its_to_wmols_opt, its_to_graphs_opt in E2.
+  destruct (roundtrip G H WG WH S PG PH) as (R1g & A1 & R2h & A2).
+  assert (wf (fst (its_decompose (its_construct G H))) /\ wf (snd (its_decompose (its_construct G H)))) as [Wg Wh]
+    by (split; apply dec_wf; apply its_wf; assumption).
+  destruct (graph_to_wmol (fst (its_decompose (its_construct G H)))) as [wr|] eqn:Wr; [|discriminate].
+  destruct (graph_to_wmol (snd (its_decompose (its_construct G H)))) as [wp|] eqn:Wp; [|discriminate].
+  destruct (rd_write wr) as [sr|] eqn:Ws1; [|discriminate]. destruct (rd_write wp) as [sp|] eqn:Ws2; [|discriminate].
+  inversion E2; subst r' p'. clear E2.
+  destruct (HR r mr _ wr sr Rr Wg R1g A1 Wr Ws1) as (mr' & Rr' & Okr & Gr).
+  destruct (HR p mp _ wp sp Rp Wh R2h A2 Wp Ws2) as (mp' & Rp' & Okp & Gp).
+  exists mr', mp'. split; [exact Rr'|]. split; [exact Rp'|]. split; [exact Okr|]. split; [exact Okp|].
+  split; eapply geq_sel_trans; eauto.
+Qed.
+
+Example C01_rsmi_pipeline_explicit_nonvacuous :
+  exists J r' p', rsmi_to_its_s ex_read true false = Some J /\ its_to_rsmi_s_opt ex_write true J = Some (r', p') /\ r' = true /\ p' = false.
+Proof. eexists. eexists. eexists. split; [reflexivity|]. split; [reflexivity|]. split; reflexivity. Qed.
